@@ -813,7 +813,7 @@ func vSelfSigned() (certPEM, keyPEM string, err error) {
 		SerialNumber: big.NewInt(1), Subject: pkix.Name{CommonName: "verif.test"},
 		NotBefore: time.Now().Add(-time.Hour), NotAfter: time.Now().Add(24 * time.Hour),
 		KeyUsage: x509.KeyUsageDigitalSignature, ExtKeyUsage: []x509.ExtKeyUsage{x509.ExtKeyUsageServerAuth},
-		DNSNames: []string{"verif.test"},
+		DNSNames: []string{"verif.test", "outer.test"},
 	}
 	der, err := x509.CreateCertificate(rand.Reader, tmpl, tmpl, &key.PublicKey, key)
 	if err != nil {
